@@ -25,8 +25,8 @@ variable {P : Str × Def → Prop}
 theorem InvR.of_eq {st st' : St} (h : InvR P st) (h1 : st'.reg = st.reg) (h2 : st'.insts = st.insts)
     (h3 : st'.goalCfg = st.goalCfg) (h4 : st'.peerCount = st.peerCount) (h5 : st'.epoch = st.epoch) :
     InvR P st' := by
-  obtain ⟨cfg, actual, pc, reg, gc, insts, caches, epoch⟩ := st
-  obtain ⟨cfg', actual', pc', reg', gc', insts', caches', epoch'⟩ := st'
+  obtain ⟨cfg, actual, pc, reg, gc, insts, caches, fed, epoch⟩ := st
+  obtain ⟨cfg', actual', pc', reg', gc', insts', caches', fed', epoch'⟩ := st'
   simp only at h1 h2 h3 h4 h5
   subst h1 h2 h3 h4 h5
   exact { regNodup := h.regNodup, idsNodup := h.idsNodup, regWF := h.regWF, instWF := h.instWF,
@@ -36,8 +36,8 @@ theorem InvR.of_eq {st st' : St} (h : InvR P st) (h1 : st'.reg = st.reg) (h2 : s
 theorem InvW.of_eq {st st' : St} (h : InvW P st) (h1 : st'.reg = st.reg) (h2 : st'.insts = st.insts)
     (h3 : st'.goalCfg = st.goalCfg) (h4 : st'.peerCount = st.peerCount) (h5 : st'.epoch = st.epoch) :
     InvW P st' := by
-  obtain ⟨cfg, actual, pc, reg, gc, insts, caches, epoch⟩ := st
-  obtain ⟨cfg', actual', pc', reg', gc', insts', caches', epoch'⟩ := st'
+  obtain ⟨cfg, actual, pc, reg, gc, insts, caches, fed, epoch⟩ := st
+  obtain ⟨cfg', actual', pc', reg', gc', insts', caches', fed', epoch'⟩ := st'
   simp only at h1 h2 h3 h4 h5
   subst h1 h2 h3 h4 h5
   exact { regNodup := h.regNodup, idsNodup := h.idsNodup, regWF := h.regWF, instWF := h.instWF,
@@ -86,57 +86,79 @@ theorem inv_updatePeers {all : List Config} {E : Str → Prop} {st st0 : St} (h 
   exact ⟨updatePeers_R (h.r.toInvW.of_eq h1 h2 h3 h4 h5), h.c.ext e, by rw [e.cfg]; exact h.cfg,
     fun hF => (h.f hF).ext e m, fun key ent hm => h.keys key ent (by rw [← h6]; exact hm)⟩
 
-theorem inv_step {all : List Config} {E : Str → Prop} {cfgs : List Config} (hsub : ∀ c ∈ cfgs, c ∈ all)
-    {st : St} (h : Inv all E st) (op : Op) (hop : ∀ w e, op = .get w e → E e) :
-    Inv all E (step cfgs st op) := by
-  cases op with
-  | get w env =>
-    simp only [step]
-    cases hc : AList.get st.caches (w, env) with
-    | some _ => exact h
-    | none =>
+theorem inv_stepGet {all : List Config} {E : Str → Prop} {st : St} (h : Inv all E st) (w : Nat) (env : Str)
+    (hE : E env) : Inv all E (stepGet st w env) := by
+  simp only [stepGet]
+  cases hc : AList.get st.caches (w, env) with
+  | some _ => exact h
+  | none =>
+    simp only
+    cases hg : getSampler st env with
+    | none => exact h
+    | some r =>
+      obtain ⟨st1, slots⟩ := r
       simp only
-      cases hg : getSampler st env with
-      | none => exact h
-      | some r =>
-        obtain ⟨st1, slots⟩ := r
-        simp only
-        have hP : ∀ pd ∈ slotsOf st.cfg env, InPlay all E pd :=
-          fun pd hpd => ⟨st.cfg, h.cfg, env, hop w env rfl, hpd⟩
-        have m := getSampler_out h.r hP hg
-        have hc1 := h.c.ext m.ext
-        refine ⟨m.inv.of_eq rfl rfl rfl rfl rfl, ?_, by show st1.cfg ∈ all; rw [m.ext.cfg]; exact h.cfg, ?_, ?_⟩
-        rotate_right
+      have hP : ∀ pd ∈ slotsOf st.cfg env, InPlay all E pd :=
+        fun pd hpd => ⟨st.cfg, h.cfg, env, hE, hpd⟩
+      have m := getSampler_out h.r hP hg
+      have hc1 := h.c.ext m.ext
+      refine ⟨m.inv.of_eq rfl rfl rfl rfl rfl, ?_, by show st1.cfg ∈ all; rw [m.ext.cfg]; exact h.cfg, ?_, ?_⟩
+      rotate_right
+      · intro key ent hm
+        rcases mem_put hm with e | ⟨hm', _⟩
+        · obtain ⟨rfl, rfl⟩ := Prod.mk.inj e
+          exact hE
+        · exact h.keys key ent (by rw [← m.ext.caches]; exact hm')
+      · constructor
         · intro key ent hm
           rcases mem_put hm with e | ⟨hm', _⟩
           · obtain ⟨rfl, rfl⟩ := Prod.mk.inj e
-            exact hop w env rfl
-          · exact h.keys key ent (by rw [← m.ext.caches]; exact hm')
-        · constructor
-          · intro key ent hm
-            rcases mem_put hm with e | ⟨hm', _⟩
-            · obtain ⟨rfl, rfl⟩ := Prod.mk.inj e
-              refine ⟨Nat.le_refl _, fun s hs => ?_⟩
-              have := m.ok s hs
-              rw [← m.ext.epoch] at this
-              exact this.of_eq rfl
-            · obtain ⟨a, b⟩ := hc1.slotWF key ent hm'
-              exact ⟨a, fun s hs => (b s hs).of_eq rfl⟩
-          · intro key ent hm hep s hs
-            rcases mem_put hm with e | ⟨hm', _⟩
-            · obtain ⟨rfl, rfl⟩ := Prod.mk.inj e
-              exact (m.tracked s hs).of_eq rfl
-            · exact (hc1.tracked key ent hm' hep s hs).of_eq rfl
-        · intro hF key ent hm hep s hs
+            refine ⟨Nat.le_refl _, fun s hs => ?_⟩
+            have := m.ok s hs
+            rw [← m.ext.epoch] at this
+            exact this.of_eq rfl
+          · obtain ⟨a, b⟩ := hc1.slotWF key ent hm'
+            exact ⟨a, fun s hs => (b s hs).of_eq rfl⟩
+        · intro key ent hm hep s hs
           rcases mem_put hm with e | ⟨hm', _⟩
           · obtain ⟨rfl, rfl⟩ := Prod.mk.inj e
-            exact (m.cur hF s hs).of_eq rfl
-          · exact (((h.f hF).ext m.ext (m.mono hF)) key ent hm' hep s hs).of_eq rfl
+            exact (m.tracked s hs).of_eq rfl
+          · exact (hc1.tracked key ent hm' hep s hs).of_eq rfl
+      · intro hF key ent hm hep s hs
+        rcases mem_put hm with e | ⟨hm', _⟩
+        · obtain ⟨rfl, rfl⟩ := Prod.mk.inj e
+          exact (m.cur hF s hs).of_eq rfl
+        · exact (((h.f hF).ext m.ext (m.mono hF)) key ent hm' hep s hs).of_eq rfl
+
+/-- the event counters are no part of the invariants -/
+theorem Inv.of_fed {all : List Config} {E : Str → Prop} {st : St} (h : Inv all E st) (f : AList Nat Nat) :
+    Inv all E { st with fed := f } := by
+  refine ⟨h.r.of_eq rfl rfl rfl rfl rfl, ?_, h.cfg, ?_, h.keys⟩
+  · constructor
+    · intro key ent hm
+      obtain ⟨a, b⟩ := h.c.slotWF key ent hm
+      exact ⟨a, fun s hs => (b s hs).of_eq rfl⟩
+    · intro key ent hm hep s hs
+      exact (h.c.tracked key ent hm hep s hs).of_eq rfl
+  · intro hF key ent hm hep s hs
+    exact (h.f hF key ent hm hep s hs).of_eq rfl
+
+theorem inv_step {all : List Config} {E : Str → Prop} {cfgs : List Config} (hsub : ∀ c ∈ cfgs, c ∈ all)
+    {st : St} (h : Inv all E st) (op : Op) (hop : ∀ e, op.env? = some e → E e) :
+    Inv all E (step cfgs st op) := by
+  cases op with
+  | get w env => exact inv_stepGet h w env (hop env rfl)
+  | feed w env n =>
+    have h1 := inv_stepGet h w env (hop env rfl)
+    simp only [step]
+    split
+    · exact h1.of_fed _
+    · exact h1
   | peers n => exact inv_updatePeers h rfl rfl rfl rfl rfl rfl rfl
   | peersFail => exact inv_updatePeers h rfl rfl rfl rfl rfl rfl rfl
   | peercb => exact inv_updatePeers h rfl rfl rfl rfl rfl rfl rfl
   | peerset n =>
-    simp only [step]
+    simp only [step, stepGet]
     refine ⟨h.r.of_eq rfl rfl rfl rfl rfl, ?_, h.cfg, ?_, h.keys⟩
     · constructor
       · intro key ent hm
@@ -147,7 +169,7 @@ theorem inv_step {all : List Config} {E : Str → Prop} {cfgs : List Config} (hs
     · intro hF key ent hm hep s hs
       exact (h.f hF key ent hm hep s hs).of_eq rfl
   | peersetFail =>
-    simp only [step]
+    simp only [step, stepGet]
     refine ⟨h.r.of_eq rfl rfl rfl rfl rfl, ?_, h.cfg, ?_, h.keys⟩
     · constructor
       · intro key ent hm
@@ -158,7 +180,7 @@ theorem inv_step {all : List Config} {E : Str → Prop} {cfgs : List Config} (hs
     · intro hF key ent hm hep s hs
       exact (h.f hF key ent hm hep s hs).of_eq rfl
   | setcfg j =>
-    simp only [step]
+    simp only [step, stepGet]
     cases hj : cfgs[j]? with
     | none => exact h
     | some c =>
@@ -173,7 +195,7 @@ theorem inv_step {all : List Config} {E : Str → Prop} {cfgs : List Config} (hs
       · intro hF key ent hm hep s hs
         exact (h.f hF key ent hm hep s hs).of_eq rfl
   | clear =>
-    simp only [step]
+    simp only [step, stepGet]
     have hle : ∀ key ent, (key, ent) ∈ st.caches → ent.epoch ≤ st.epoch := fun key ent hm => (h.c.slotWF key ent hm).1
     refine ⟨?_, ?_, h.cfg, ?_, h.keys⟩
     · refine { regNodup := AList.nodup_nil, idsNodup := by simp, regWF := ?_, instWF := h.r.instWF,
@@ -195,7 +217,7 @@ theorem inv_step {all : List Config} {E : Str → Prop} {cfgs : List Config} (hs
       simp only at hep
       omega
   | wreload w =>
-    simp only [step]
+    simp only [step, stepGet]
     refine ⟨h.r.of_eq rfl rfl rfl rfl rfl, ?_, h.cfg, ?_, fun key ent hm => h.keys key ent (mem_keep (p := fun k _ => k.1 != w) hm)⟩
     · constructor
       · intro key ent hm
@@ -214,9 +236,9 @@ theorem inv_foldl {all : List Config} {E : Str → Prop} {cfgs : List Config} (h
   | [], st, h, _ => h
   | op :: ops, st, h, ho => by
     simp only [List.foldl_cons]
-    apply inv_foldl hsub ops _ (inv_step hsub h op (fun w e he => ho w e (by rw [he]; simp)))
-    intro w e hm
-    exact ho w e (List.mem_cons_of_mem _ hm)
+    apply inv_foldl hsub ops _ (inv_step hsub h op (fun e he => ho op (by simp) e he))
+    intro op' hm e he
+    exact ho op' (List.mem_cons_of_mem _ hm) e he
 
 /-- **the invariants hold after every history** whose sampler keys lie in `E` -/
 theorem inv_run (c0 : Config) (a0 : Option Nat) (cfgs : List Config) (E : Str → Prop) (ops : List Op)
@@ -245,7 +267,7 @@ theorem step_get_caches {all : List Config} {E : Str → Prop} {cfgs : List Conf
     ∀ key ent, (key, ent) ∈ (step cfgs st (.get w env)).caches →
       (key, ent) ∈ st.caches ∨ (key = (w, env) ∧ ent.epoch = st.epoch ∧
         ent.slots.map (fun s => (s.pfx, s.d)) = slotsOf st.cfg env) := by
-  simp only [step]
+  simp only [step, stepGet]
   cases hc : AList.get st.caches (w, env) with
   | some _ => exact ⟨rfl, rfl, fun key ent hm => Or.inl hm⟩
   | none =>
@@ -275,7 +297,7 @@ theorem foldl_gets_caches {all : List Config} {E : Str → Prop} {cfgs : List Co
   | [], st, _ => ⟨rfl, rfl, fun key ent hm => Or.inl hm⟩
   | w :: ws, st, h => by
     obtain ⟨c1, e1, m1⟩ := step_get_caches (cfgs := cfgs) h w env hE
-    have h1 := inv_step hsub h (.get w env) (fun w' e' he => by cases he; exact hE)
+    have h1 := inv_step hsub h (.get w env) (fun e' he => by cases he; exact hE)
     obtain ⟨c2, e2, m2⟩ := foldl_gets_caches hsub env hE ws _ h1
     simp only [List.map_cons, List.foldl_cons]
     refine ⟨c2.trans c1, e2.trans e1, fun key ent hm => ?_⟩
